@@ -106,6 +106,9 @@ def c07(run):
     fs = scope(run, 'C07')
     r2_none.run_r2(run, fs)
     r1_resolve.run_r1(run, fs)
+    # dual-mode transl / transl2 behind the validating import: reached only with a vector argument
+    if r20_shapes.check_dual_mode_calls(run, [f for f in prog.analysed_functions() if f.cls is not None]) < 3:
+        run.error('R20: fewer than 3 one-argument transl / transl2 calls in class methods (anchor of the dual-mode rule not found in the current source)')
     run.floor('R4', 40)
     run.floor('R5', 15)
     run.floor('R3', 11)
@@ -113,6 +116,8 @@ def c07(run):
                        'skew definitions, class isvalid delegation), R5 (every store into data in arghandler passes '
                        '_import and a None test, or a class test; _import returns the value only under isvalid; '
                        'constructors forward check), R3 (every normal constructor exit has assigned the value state) '
+                       'R20 (a one-argument call of the dual-mode transl/transl2 in a constructor is reached only where the argument '
+                       'is established to be a vector, so a matrix rejected by the import cannot be turned into a stored vector) '
                        'and R2/R1 over the anchored functions. Together: with check=True there is no path from a '
                        'constructor argument to data that bypasses a predicate containing the orthogonality, '
                        'determinant-sign and last-row atoms, and no path stores None or leaves an empty object. The '
@@ -145,6 +150,7 @@ CHECKS['DEV7'] = c_dev7
 def c08(run):
     prog = run.prog
     r6_dispatch.run_r6(run)
+    r6_dispatch.check_array_branch_dimension(run)
     run.exhaustive = True
     r7_binary.run_r7(run, helpers=False, dunders=True)
     dund = [f for f in prog.analysed_functions() if f.cls is not None and f.name in r7_binary.BIN_DUNDERS]
@@ -204,6 +210,12 @@ def c09(run):
     fs = scope(run, 'C09')
     r2_none.run_r2(run, fs)
     r1_resolve.run_r1(run, fs)
+    # broadcasting over a vector of motion parameters: the unit conversion applied to a scalar theta is applied to every
+    # element of a vector theta as well (unit typestate of the angle on every path to the exponential)
+    nu = 0
+    for k in ('twist:Twist3.exp', 'twist:Twist2.exp'):
+        r10_args.check_unit_typestate(run, prog.func(k))
+        nu += 1
     run.floor('R7', 14)
     run.floor('R8', 60)
     run.floor('R8h', 20)
@@ -216,7 +228,8 @@ def c09(run):
                        'value (self.A, self._A, self.S, helper results, the result of ==) is used as an array only under '
                        'len(self)==1 and iterated only under len(self)!=1; elements of self.data are treated as ndarrays '
                        'and elements of iter(self) as objects; the single-value and per-element branches call the same '
-                       'kernel with the same options. Element values (numerics) are not decided.')
+                       'kernel with the same options. R10u: in Twist2/Twist3.exp the angle reaches the exponential converted by getunit '
+                       'on every path, for a scalar and for a vector of angles alike. Element values (numerics) are not decided.')
     run.trust(*STATIC_TRUST)
 
 
@@ -506,6 +519,10 @@ def c02(run):
     r16_tables._qpow(run)
     r16_tables.check_trlog_dependence(run)
     r7_binary.run_r7(run, helpers=True, dunders=False)
+    # the unchecked results of the group operations come from closed producers: in particular a transpose stands for the
+    # inverse only where every receiver class is SO(n) (X ** -n through x.T in the shared SMPose method is wrong for SE(n))
+    r15_closed.check_unchecked_sites(run, only=('__pow__', '__ipow__', 'inv', '__truediv__', '__itruediv__', '__mul__', '__imul__',
+                                                '__matmul__', 'prod', 'conj'))
     _scope_rules(run, 'C02')
     run.floor('R16', 4)
     run.floor('R15', 20)
@@ -660,6 +677,7 @@ def c11(run):
 def c12(run):
     r16_tables.tables_c12(run)
     r16_tables.check_routes(run, r16_tables.ROUTES_C12)
+    r7_binary.check_helper_operand_order(run)
     r16_tables.check_sign_dependence(run, 'quaternion:Quaternion.log', 's', why='quaternions (s, v) and (-s, v) are different but get the same '
                                      'logarithm, so exp(log(q)) cannot return q when the scalar part is negative (angle beyond pi/2)')
     _scope_rules(run, 'C12')
